@@ -5,12 +5,15 @@
 
   Proved here: `Maximum` (every capacity resource, distance limit) in all three regimes — sound
   AND complete (the estimate rejects exactly the insertions whose new route violates the limit);
-  `MaximumStops`, `Attributes` (exact formulas, NR.Props.C01). The temporal estimates (`Latest`,
-  `MaximumWaitStop`, `MaximumWaitVehicle`) and `NoMix` are NOT modelled: they are tied by the
-  executable-then-Execute differential on the real code only (partial; DESIGN §5 C09).
+  `MaximumStops`, `Attributes` (exact formulas, NR.Props.C01); `Latest` start / end / arrival (below: the
+  estimate has no early exit and IS the exact check of the walked stops); the waiting-time estimates are in
+  NR.Props.C09W, the hypothetical-route iterator in C09G, no-mix in C01M. With that every estimate the factory
+  registers is modelled, proved against its exact check and tied line by line (`est max|waitv|waits|latest`,
+  `mix est`, `sgen`); the cluster constraint (opt-in, no exact check) is not modelled.
 -/
 import NR.Estimate
 import NR.Proofs.Estimate
+import NR.LatestEst
 namespace NR.Props.C09
 open NR.Estimate
 
@@ -52,8 +55,18 @@ example : maxEstimate 10 3 [2, 4] [0] 7 7 false = false ∧ exactOK 10 3 [2, 4] 
 example : maxEstimate 10 3 [5, 4] [0] 7 7 false = true ∧ exactOK 10 3 [5, 4] [0] = false := by decide +kernel
 example : maxEstimate 10 3 [-4, 4] [6, -2] 7 11 true = true := by decide +kernel
 
+/-- Latest start / end / arrival: the estimate rejects a move exactly when the exact check fails at some stop of the
+hypothetical route behind the first inserted stop — for any windows, travel durations and process durations. -/
+theorem c09_latest_estimate_is_exact (r : NR.LatestEst.Ref) (pe : Rat) (walk : List (NR.WaitEst.Item × Rat)) :
+    NR.LatestEst.est r pe walk = !NR.LatestEst.exactOK r pe walk :=
+  NR.LatestEst.est_iff_exact r pe walk
+
+example : NR.LatestEst.est .start 0 [({ travel := 10, windows := [(50, 60)], dur := 5, planned := false }, 60),
+    ({ travel := 10, windows := [], dur := 0, planned := true }, 60)] = true := by decide +kernel
+
 end NR.Props.C09
 
 #print axioms NR.Props.C09.c09_maximum_sound
 #print axioms NR.Props.C09.c09_maximum_complete
 #print axioms NR.Props.C09.c09_maximum_const
+#print axioms NR.Props.C09.c09_latest_estimate_is_exact
